@@ -78,6 +78,9 @@ def variants(prog, extra):
     v = copy.deepcopy(prog)
     v['plugs'][extra[0] % len(prog['plugs'])]['ctor'] = 'raise-exit'     # SystemExit: a BaseException, not an Exception
     out.append(('ctor-raise-exit-%d' % (extra[0] % len(prog['plugs'])), v))
+    v = copy.deepcopy(prog)
+    v['plugs'][extra[1] % len(prog['plugs'])]['ctor'] = 'sets-logger'    # rejected after construction: still a constructed instance
+    out.append(('ctor-sets-logger-%d' % (extra[1] % len(prog['plugs'])), v))
   if len(prog['plugs']) >= 2:
     k1, k2, f1, f2 = extra
     k1 %= len(prog['plugs'])
